@@ -1110,6 +1110,9 @@ def race_defs():
         # an idle client's BEGIN and SIGINT at the same instant: kicked at once, or that one transaction is served first
         "begin-vs-int": {"alts": {"kicked-first": [c("c0"), ["sig", "int"]],
                                   "txn-first": [c("c0"), ["begin", "c0"], ["sig", "int"], ["commit", "c0"]]}},
+        # Parse/Bind/Execute (no Sync) of an idle client and SIGINT at the same instant: whichever is seen first, the
+        # client holds no server and is in the outer loop: told to go
+        "extbatch-vs-int": {"alts": {"kicked": [c("c0"), ["ext_batch", "c0"], ["sig", "int"]]}},
         # COMMIT of a running transaction and SIGINT at the same instant: always served, then kicked
         "commit-vs-int": {"alts": {"served": [c("c0"), ["begin", "c0"], ["sig", "int"], ["commit", "c0"]]}},
         # a new connection and SIGINT at the same instant (a transaction of k keeps the process alive)
@@ -1155,6 +1158,22 @@ def race_binary(mockd, name, order, i):
             elif "kicked" not in per["c0"]:
                 fr, out = c0.query("COMMIT", 2.0); tok("c0", fr, "stmt")
                 fr, out = c0.read("E", 2.0); tok("c0", fr, "probe")
+        elif name == "extbatch-vs-int":
+            c0 = PgClient(B.port); fr, _ = c0.login({"user": "u", "database": "db"}, "pw"); tok("c0", fr, "startup")
+            time.sleep(0.05)
+            q = (PgClient.msg(b"P", b"\0SELECT 1 /*xr*/\0" + struct.pack(">h", 0)) + PgClient.msg(b"B", b"\0\0" + struct.pack(">hhh", 0, 0, 0)) +
+                 PgClient.msg(b"E", b"\0" + struct.pack(">i", 0)))
+            if order == 0:
+                c0.send(q); sigint()
+            else:
+                sigint(); c0.send(q)
+            fr, out = c0.read("E", 2.0); tok("c0", fr, "probe")
+            if not fr and out == "closed":
+                per["c0"].append("kicked"); per["#reset"] = True     # error frame lost to the RST our unread batch provoked
+            else:
+                c0.send(PgClient.msg(b"S")); fr, out = c0.read("Z", 0.3)
+                if any(f["t"] in "12DCZ" for f in fr):
+                    per["c0"].append("answered-after-kick")
         elif name == "commit-vs-int":
             c0 = PgClient(B.port); fr, _ = c0.login({"user": "u", "database": "db"}, "pw"); tok("c0", fr, "startup")
             time.sleep(0.05)
@@ -1405,7 +1424,7 @@ def check(run):
     run.cov["evaluations"] = evals
     run.cov["distinct_nontrivial"] = len(classes)
     run.cov["rule"] = ("%d hand-written boundary scripts (population x {SIGINT, admin SHUTDOWN, SIGTERM} x timing: before/inside/between transactions, arrivals, late authentication, "
-                       "panic/close/cancel, double SIGINT, timer) + %d seeded random scripts; every script evaluated in coqc (script_trace) and run in-process; the boundary scripts + %d random "
+                       "panic/close/cancel, double SIGINT, timer, Parse/Bind/Execute buffered without Sync outside / inside a transaction / session-held) + %d seeded random scripts; every script evaluated in coqc (script_trace) and run in-process; the boundary scripts + %d random "
                        "ones also against the real binary. distinct = distinct (population with phases at the signal, signal, post-signal op sequence, model exit cause)"
                        % (len(core_scripts()), nrand_wire, len(bin_cases) - len(core_scripts())))
     run.cov["samples"] = [{"name": n, "script": ops, "model_exit": t[-1]["exited"], "model_total": t[-1]["total"]} for n, ops, t in (cases[6:8] + cases[-2:])]
@@ -1414,6 +1433,8 @@ def check(run):
                                      "with_sigterm": sum(1 for _, ops, _ in cases if ["sig", "term"] in ops),
                                      "with_late_auth": sum(1 for _, ops, _ in cases if any(o[0] == "accept_late" for o in ops)),
                                      "with_panic": sum(1 for _, ops, _ in cases if any(o[0] == "panic" for o in ops)),
+                                     "with_buffered_ext_batch_at_signal": sum(1 for _, ops, _ in cases if "+batch" in str(abstract_class(ops, None)[0])),
+                                     "with_sync_after_kick": sum(1 for _, ops, _ in cases if any(o[0] == "ext_sync_dead" for o in ops)),
                                      "timing_inconclusive": extra.get("timing_inconclusive", 0)}
     run.cov["disagreements_checked"] = wire_dis + bin_dis
     if not quick and proof_ok:
